@@ -251,3 +251,62 @@ macro_rules! write_exact_never_returns_harness {
 }
 //@h name=c12_we_exact_x25519_sk tier=quick mode=full timeout=600 desc="X25519 private key write_exact into an exact-size buffer does not panic and writes the serialisation" bounds="all keys"
 write_exact_never_returns_harness!(c12_we_exact_x25519_sk, SkOf<X25519HkdfSha256>, 32);
+
+// ---------------------------------------------------------------------------------------------
+// Concrete anchors for NIST public keys.  These are CONCRETE runs through the solver (zero symbolic
+// variables: regression anchors, not a for-all).  The RFC 5903 section 8.1 P-256 public point
+// (checked natively to be accepted by the p256 crate) is accepted; the same coordinates under any
+// other leading tag byte, and the same encoding with one flipped bit in y (off the curve), are
+// rejected with ValidationError.  They are what detects replacing `from_sec1_bytes` by a
+// constructor that skips the tag or the curve check - a change whose symbolic counterexample would
+// need the solver to FIND a curve point.  Re-serialisation is not asserted here (see DESIGN section 7:
+// Kani's to_bytes of this point differs from native execution).
+// ---------------------------------------------------------------------------------------------
+pub const RFC5903_P256_PUB: [u8; 65] = [
+    0x04, 0xda, 0xd0, 0xb6, 0x53, 0x94, 0x22, 0x1c, 0xf9, 0xb0, 0x51, 0xe1, 0xfe, 0xca, 0x57, 0x87, 0xd0, 0x98, 0xdf, 0xe6, 0x37, 0xfc,
+    0x90, 0xb9, 0xef, 0x94, 0x5d, 0x0c, 0x37, 0x72, 0x58, 0x11, 0x80, 0x52, 0x71, 0xa0, 0x46, 0x1c, 0xdb, 0x82, 0x52, 0xd6, 0x1f, 0x1c,
+    0x45, 0x6f, 0xa3, 0xe5, 0x9a, 0xb1, 0xf4, 0x5b, 0x33, 0xac, 0xcf, 0x5f, 0x58, 0x38, 0x9e, 0x05, 0x77, 0xb8, 0x99, 0x0b, 0xb3,
+];
+
+//@h name=c09_l5_anchor_p256_accept_reject tier=quick mode=func fs=200 also=C12 timeout=1800 desc="CONCRETE anchor (no symbolic input): the RFC 5903 P-256 public point is accepted as public key and as encapsulated key; with the lowest bit of y flipped (off the curve) it is rejected with ValidationError" bounds="two concrete encodings; constant folding of the p256 curve-equation check"
+#[kani::proof]
+#[kani::unwind(140)]
+#[kani::stub(zeroize::optimization_barrier, noop_barrier)]
+pub fn c09_l5_anchor_p256_accept_reject() {
+    assert!(<PkOf<DhP256HkdfSha256> as Deserializable>::from_bytes(&RFC5903_P256_PUB).is_ok(), "a valid P-256 public key was rejected");
+    assert!(<EncOf<DhP256HkdfSha256> as Deserializable>::from_bytes(&RFC5903_P256_PUB).is_ok(), "a valid P-256 encapsulated key was rejected");
+    let mut b = RFC5903_P256_PUB;
+    b[64] ^= 1;
+    match <PkOf<DhP256HkdfSha256> as Deserializable>::from_bytes(&b) {
+        Err(e) => assert!(e == HpkeError::ValidationError),
+        Ok(_) => assert!(false, "an off-curve point was accepted"),
+    }
+}
+
+macro_rules! anchor_wrong_tag {
+    ($name:ident, $tag:expr) => {
+        #[kani::proof]
+        #[kani::unwind(140)]
+        #[kani::stub(zeroize::optimization_barrier, noop_barrier)]
+        pub fn $name() {
+            let mut b = RFC5903_P256_PUB;
+            b[0] = $tag;
+            match <PkOf<DhP256HkdfSha256> as Deserializable>::from_bytes(&b) {
+                Err(e) => assert!(e == HpkeError::ValidationError),
+                Ok(_) => assert!(false, "a valid point under a non-0x04 tag was accepted as public key"),
+            }
+            match <EncOf<DhP256HkdfSha256> as Deserializable>::from_bytes(&b) {
+                Err(e) => assert!(e == HpkeError::ValidationError),
+                Ok(_) => assert!(false, "a valid point under a non-0x04 tag was accepted as encapsulated key"),
+            }
+        }
+    };
+}
+//@h name=c09_l5_anchor_p256_tag02 tier=quick mode=func fs=200 also=C13 timeout=1800 desc="CONCRETE anchor: the coordinates of a VALID P-256 point under the leading tag byte 0x02 (compressed marker) are rejected with ValidationError, as public and as encapsulated key" bounds="one concrete encoding"
+anchor_wrong_tag!(c09_l5_anchor_p256_tag02, 0x02);
+//@h name=c09_l5_anchor_p256_tag00 tier=quick mode=func fs=200 also=C13 timeout=1800 desc="same under tag 0x00 (identity marker)" bounds="one concrete encoding"
+anchor_wrong_tag!(c09_l5_anchor_p256_tag00, 0x00);
+//@h name=c09_l5_anchor_p256_tag03 tier=thorough mode=func fs=200 also=C13 timeout=1800 desc="same under tag 0x03" bounds="one concrete encoding"
+anchor_wrong_tag!(c09_l5_anchor_p256_tag03, 0x03);
+//@h name=c09_l5_anchor_p256_tag05 tier=thorough mode=func fs=200 also=C13 timeout=1800 desc="same under tag 0x05" bounds="one concrete encoding"
+anchor_wrong_tag!(c09_l5_anchor_p256_tag05, 0x05);
